@@ -95,7 +95,13 @@ def rule_codec(ctx, rep):
                 if a[0] == "eq" and a[2] == ("c", 0):
                     leaves_false(a[1], false_leaves)
                 elif a[0] in ("ne",) and a[2] == ("c", 0):
-                    pass
+                    # a conjunction known TRUE (`!BIT(x) && x != MARK`) says the same as its negated leaves being false
+                    tl = []
+                    if a[1][0] in ("select", "bin", "icmp") and _boolish(a[1]):
+                        pat.leaf_atoms(("icmp", "ne", a[1], ("c", 0)), True, tl)
+                    for x in tl:
+                        if len(x) == 3 and x[0] in ("eq", "ne"):
+                            false_leaves.append(("icmp", "ne" if x[0] == "eq" else "eq", x[1], x[2]))
                 elif a[0] in NEGP:
                     false_leaves.append(("icmp", NEGP[a[0]], a[1], a[2]))
             forms.setdefault(len(vals), []).append((p, vals, false_leaves, atoms))
